@@ -18,7 +18,7 @@ followed by netw_send, and the ack counter written is the duplicate's own counte
 TxOutcome::Retransmit answer is cut by a branch on the select3 result that excludes Either3::Second (some session was removed), and the timer
 deadline is now + retrans_delay_ms() - the numeric back-off itself is not decided.
 """
-CLAUSES = ['a: transmit give-up is propagated as TxTimeout', 'b: only a matching acknowledgement clears the retransmission entry', 'c: duplicates are acknowledged again (classified Duplicate before any other refusal)',
+CLAUSES = ['e: a completed handshake\'s session is usable at once (not only after the last handshake message is acknowledged)', 'a: transmit give-up is propagated as TxTimeout', 'b: only a matching acknowledgement clears the retransmission entry', 'c: duplicates are acknowledged again (classified Duplicate before any other refusal)',
            'd: only the ack or the back-off timer ends the wait before a retransmission; back-off arithmetic keeps every bit']
 NOT_DECIDED = ['at-most-once and in-order delivery', 'success only if the peer received the message', 'back-off lower bounds / timing', 'success under one good transmission']
 MIN_OBLIGATIONS = {'q': 14, 'd': 14, 'r': 14}
@@ -176,6 +176,22 @@ def check(R):
         R.floor('NoExchange / NoSession refusals in Session::post_recv', len(other), 1)
         R.cut('P2', sp, 'refuse the message as NoExchange / NoSession', other, 'the counter window accepted it as new (a duplicate is answered Duplicate -> re-acknowledged, whatever became of its exchange)',
               lambda: R.call_guard(sp, 'transport::dedup::RxCtrState::post_recv'))
+
+    # ---- e --------------------------------------------------------------------
+    with R.clause('e'):
+        # "the call succeeds if one transmission and one acknowledgement get through": the peer starts using a new secure session as soon as
+        # it has the final handshake message, while this side still holds the ReservedSession until THAT message is acknowledged.  The
+        # session must therefore be taken out of the reserved state by ReservedSession::complete() itself (as every caller's comment says),
+        # not only when the guard is dropped - or every secure message that arrives meanwhile is answered SessionNotFound, however often it
+        # is retransmitted
+        RSV = 'transport::session::ReservedSession'
+        cb = [R.body(RSV + '::complete')] + list(F.nested(RSV + '::complete'))
+        unres = [(b_, i) for b_ in cb for i, j, st in b_.field_writes('reserved:transport::session::Session')
+                 if st[1].get('op') == 'use' and st[1]['a'][0].get('k', {}).get('v') == 0]
+        R.expect('P3', RSV + '::complete', 'ReservedSession::complete() makes the session available at once (reserved <- false)', bool(unres),
+                 f'{len(unres)} write(s) of Session.reserved = false under complete()',
+                 'complete() only sets a flag; Session.reserved is cleared when the guard is dropped - after the final handshake message was acknowledged: until then every message on the '
+                 'new session is refused (SessionNotFound)', f'{cb[0].file}:{cb[0].line}')
 
     # ---- d --------------------------------------------------------------------
     with R.clause('d'):
